@@ -83,11 +83,25 @@ def r1(ctx):
                 'plane is strictly below the core length',
                 key=zp.full + ' | loop condition')
     # every iteration appends z[-1] + (value of _check_dz(z[-1]))
-    apps = find_all('z.append(np.around(z[-1] + dz[-1], 12))', w, 'expr')
-    dzs = find_all('dz.append(self._check_dz(z[-1]))', w, 'expr')
+    # forms: the step is appended to dz and read back as dz[-1], or held in
+    # a local that is both appended to dz and added to z[-1]
+    apps = find_all('z.append(np.around(z[-1] + Q_s, 12))', w, 'expr')
+    dzs = find_all('dz.append(Q_d)', w, 'expr')
     ok = len(apps) == 1 and len(dzs) == 1 and not U.guards(apps[0][0], stop=w)\
         and not U.guards(dzs[0][0], stop=w) and \
         dzs[0][0].lineno < apps[0][0].lineno
+    if ok:
+        step, app = apps[0][1]['Q_s'], dzs[0][1]['Q_d']
+        call = 'self._check_dz(z[-1])'
+        if src(step) == 'dz[-1]':
+            ok = src(app) == call
+        elif isinstance(step, ast.Name) and src(app) == step.id:
+            d = [a_ for a_ in U.assigns_of(w, step.id)]
+            ok = len(d) == 1 and isinstance(d[0], ast.Assign) and \
+                src(d[0].value) == call and not U.guards(d[0], stop=w) and \
+                d[0].lineno < dzs[0][0].lineno
+        else:
+            ok = False
     ctx.require(ok, 'C05.R1', zp, w, 'each iteration must append the next '
                 'plane z[-1] + _check_dz(z[-1]) unconditionally',
                 key=zp.full + ' | advance')
